@@ -8,7 +8,7 @@ from ..qnum import installed
 from ..sllib import TIME_LATTICE, Fixture, random_space_intervals, result_str
 from ..slchecks import (RealOps, corr_panels, describe, dummy_children, ok_aspect, random_real_mesh, seam_and_corner_pairs,
                         with_generated)
-from ..slchecks import StubElem, make_curve  # noqa: E402
+from ..slchecks import StubElem, addr_interval, make_curve  # noqa: E402
 from .C04 import translate  # noqa: F401
 
 PROP_MODS = ['Stbem.Props.C11', 'Stbem.Props.PanelsTie']
@@ -136,6 +136,59 @@ def search(res, tier, boost=False):
                             res.violation('C11:not-additive:%s' % ('exact-path' if pw else 'quadrature-path'),
                                           dict(curve=cname, pw_exact=pw, test=describe(te), trial=describe(tr), split_test=ks,
                                                split_trial=kk, parent=float(parent), pieces=float(s), scaled_error=err))
+    # TREE pairs: an element and a much smaller one (1..6 space levels finer) touching it from outside, or one or two
+    # small elements away, on the same side / arc, with overlapping
+    # time intervals - pairs of a coarse and a fine level of one refinement hierarchy (ancestor of a leaf against a
+    # neighbouring leaf).  On the shipped code the defect is below 1e-8 * scale for these.
+    times = [(0.0, 1.0), (0.0, 0.5), (0.5, 1.0), (0.25, 0.5), (0.5, 0.75)]
+    for cname in ('UnitSquare', 'Circle') if tier == 'quick' and not boost else ('UnitSquare', 'Circle', 'LShape', 'PiSquare'):
+        gamma = make_curve(cname)
+        with contextlib.redirect_stdout(io.StringIO()):
+            from src.mesh import MeshParametrized
+            ops = RealOps(gamma, MeshParametrized(gamma))
+        L = float(gamma.gamma_length)
+        K = len(gamma.pw_gamma)
+        for it in range((10 if tier == 'quick' else 60) * (2 if boost else 1)):
+            pc = rng.randrange(K)
+            la = rng.randint(2 if K == 1 else 0, 3 if K == 1 else 2)
+            k = 1 + it % 6
+            ma = rng.randrange(2**la)
+            gapn = rng.choice([0, 0, 1, 2])
+            right = rng.random() < 0.5
+            mb = (ma + 1) * 2**k + gapn if right else ma * 2**k - 1 - gapn
+            if not (0 <= mb < 2**(la + k)):
+                continue      # would leave the piece (corner / seam): those pairs are generated by seam_and_corner_pairs
+            # end points by the mesh's own bisection arithmetic (bit-identical shared end points, also on the pi-square / circle)
+            a = addr_interval(gamma, (pc, la, ma))
+            b = addr_interval(gamma, (pc, la + k, mb))
+            pb = pc
+            ta, tb = rng.choice(times), rng.choice(times)
+            if max(ta[0], tb[0]) >= min(ta[1], tb[1]):
+                continue
+            e1 = StubElem(ta, a, gamma.pw_gamma[pc])
+            e2 = StubElem(tb, b, gamma.pw_gamma[pb])
+            if not (ok_aspect(e1, 16) and ok_aspect(e2, 16)):
+                continue
+            for te, tr in ((e1, e2), (e2, e1)):
+                sc = ops.scale(te, tr)
+                for pw in (False, True):
+                    if pw and (cname == 'Circle' or te.gamma_space is not tr.gamma_space):
+                        continue
+                    SL = ops.SL[pw]
+                    parent = SL.bilform(tr, te)
+                    kte, ktr = dummy_children(te), dummy_children(tr)
+                    for ks, kk in (('space', 'none'), ('none', 'space'), ('quarters', 'none'), ('time', 'space')):
+                        sm = sum(SL.bilform(b_, a_) for a_ in kte[ks] for b_ in ktr[kk])
+                        err = abs(sm - parent) / sc
+                        worst = max(worst, err)
+                        res.notes['worst_tree_pair'] = max(res.notes.get('worst_tree_pair', 0.0), err)
+                        res.count(('split-tree', cname, pc, la, k, right, pw, ks, kk, repr(te)), True)
+                        if err > 1e-7:
+                            res.violation('C11:not-additive:%s:tree-pair' % ('exact-path' if pw else 'quadrature-path'),
+                                          dict(curve=cname, pw_exact=pw, test=describe(te), trial=describe(tr), split_test=ks,
+                                               split_trial=kk, parent=float(parent), pieces=float(sm), scaled_error=err,
+                                               levels_apart=k))
+                            break
     # DEEP elements (time level 16..26, h_t down to 1.5e-8; space level so that h_x^2 / h_t stays O(1)): parent and
     # children differ by less than 1e-6 in their coordinates; parent, children and neighbours are all evaluated by one
     # operator object
